@@ -70,17 +70,18 @@ pub fn read_back(doc: &[u8]) -> Result<Vec<Value>, String> {
     c.allow_unmatched_ends = true;
     c.trim_markup_names_in_closing_tags = false;
     let mut out: Vec<(String, Vec<u8>, Vec<(Vec<u8>, Vec<u8>)>)> = Vec::new();
-    fn attrs(e: &BytesStart) -> Result<Vec<(Vec<u8>, Vec<u8>)>, String> {
+    let dec = r.decoder();
+    let attrs = |e: &BytesStart| -> Result<Vec<(Vec<u8>, Vec<u8>)>, String> {
         let mut v = Vec::new();
         let mut it = e.attributes();
         it.with_checks(false);
         for a in it {
             let a = a.map_err(|e| format!("attr {:?}", e))?;
-            let val = a.unescape_value().map_err(|e| format!("unescape attr {:?}", e))?;
+            let val = a.decode_and_unescape_value(dec).map_err(|e| format!("unescape attr {:?}", e))?;
             v.push((a.key.as_ref().to_vec(), val.as_bytes().to_vec()));
         }
         Ok(v)
-    }
+    };
     loop {
         let ev = r.read_event().map_err(|e| format!("read {:?}", e))?;
         let item = match &ev {
